@@ -2,6 +2,7 @@
 //! iterators, wakers, CBox) with a Rust party and a "C party" that only knows the published layout.
 
 mod arc;
+mod cstr;
 mod cview;
 mod vec;
 
@@ -10,7 +11,7 @@ mod vec;
 static GLOBAL: simcore::alloc::SimAlloc = simcore::alloc::SimAlloc;
 
 fn main() {
-    let engines: Vec<&dyn simcore::Engine> = vec![&arc::ArcEngine, &vec::VecEngine];
+    let engines: Vec<&dyn simcore::Engine> = vec![&arc::ArcEngine, &vec::VecEngine, &cstr::CStrEngine];
     let code = simcore::worker::worker_main(&engines);
     if code != 0 {
         std::process::exit(code);
